@@ -15,9 +15,11 @@ SPEC = {
         '`is None` (an explicit 0 yields nothing); T17 backoff == list(backoff_iter(same arguments)) after rejecting '
         "'repeat'. Not decided: the default count (floating-point logarithm), jitter interval algebra, exact growth."),
     'decided': ['validation before first yield', 'range tests present', 'clamp on every growth path', 'count is None test', 'delegation'],
-    'declined': ['default count arithmetic', 'jitter bounds', 'exact geometric values'],
+    'declined': ['default count arithmetic', 'jitter bounds as numbers (the formula shape b - b*j*r is decided)', 'exact geometric values'],
     'trusted_base': [], 'assumptions': [], 'exhaustive': True,
 }
+SPEC['explanation'] += ' T7.jitter: polynomial normal form of every jittered value is b - b*jitter*r for the un-jittered delay b and a single random draw r.'
+SPEC['decided'] += ['jitter formula (polynomial normal form)']
 MANIFEST = {
     'technique': 'must-pass-through / ordering analysis on enumerated CFG paths, comparison canonicalisation, delegation check',
     'text': ('Decides structural necessary conditions of C15: invalid parameters are rejected before anything is yielded, '
